@@ -1715,13 +1715,32 @@ fn e2e_case(run: &Run, case_seed: u64, second_solves: usize) {
                 continue;
             }
         };
-        let label = format!("{}|{}", choice.name(), if via_json { "seed-via-json" } else { "seed-via-core" });
-        let second = run.guard(|| solve(problem.clone(), env.clone(), generations, vec![seed_ctx], &choice));
+        // a third of the seeded solves is configured the way the CLI does it: from a generated JSON config (G2: custom
+        // initial methods, population, hyper-heuristic, termination) through create_builder_from_config
+        let via_cli_config = rng.chance(0.35);
+        let cli_config = vverif::solverun::gen_config(&mut rng, generations.max(1), None).0;
+        let label = if via_cli_config {
+            format!("cli-config|{}", if via_json { "seed-via-json" } else { "seed-via-core" })
+        } else {
+            format!("{}|{}", choice.name(), if via_json { "seed-via-json" } else { "seed-via-core" })
+        };
+        let how = if via_cli_config { "cli-config" } else { choice.name() };
+        let second = if via_cli_config {
+            run.observe("e2e_cli_config", if cli_config["evolution"].get("initial").is_some() { "with evolution.initial" } else { "without evolution.initial" });
+            run.guard(|| -> Result<Solution, String> {
+                let config = vrp_cli::extensions::solve::config::read_config(BufReader::new(cli_config.to_string().as_bytes())).map_err(|e| e.to_string())?;
+                let builder = vrp_cli::extensions::solve::config::create_builder_from_config(problem.clone(), vec![seed_ctx], &config).map_err(|e| e.to_string())?;
+                let config = builder.build().map_err(|e| e.to_string())?;
+                Solver::new(problem.clone(), config).solve().map_err(|e| e.to_string())
+            })
+        } else {
+            run.guard(|| solve(problem.clone(), env.clone(), generations, vec![seed_ctx], &choice))
+        };
         let second = match second {
             Ok(Ok(s)) => s,
             Ok(Err(e)) => {
                 run.violation(
-                    &format!("C08|e2e|{}|seeded-solve-failed", choice.name()),
+                    &format!("C08|e2e|{how}|seeded-solve-failed"),
                     &format!("a solve seeded with a feasible solution returned an error: {e}"),
                     artefact_base(json!({"population": format!("{choice:?}"), "generations": generations, "seed_solution": seed_text})),
                 );
@@ -1729,7 +1748,7 @@ fn e2e_case(run: &Run, case_seed: u64, second_solves: usize) {
             }
             Err(info) => {
                 run.violation(
-                    &format!("C08|e2e|{}|panic|{}", choice.name(), info.file()),
+                    &format!("C08|e2e|{how}|panic|{}", info.file()),
                     &format!("seeded solve panicked: {} at {}", info.message, info.location),
                     artefact_base(json!({"population": format!("{choice:?}"), "generations": generations, "seed_solution": seed_text, "panic": info.to_json()})),
                 );
@@ -1756,11 +1775,11 @@ fn e2e_case(run: &Run, case_seed: u64, second_solves: usize) {
         if ord == Ordering::Greater || own == Some(Ordering::Greater) {
             let clause = if ord == Ordering::Greater { "result-worse-than-seed" } else { "result-worse-than-seed|f64-only" };
             run.violation(
-                &format!("C08|e2e|{}|{clause}", choice.name()),
+                &format!("C08|e2e|{how}|{clause}"),
                 &format!(
                     "solve seeded with a feasible solution returned a worse one after {generations} generations ({label}): fitness(result)={f_result:?} fitness(seed)={f_seed:?} total_order={ord:?}"
                 ),
-                artefact_base(json!({"population": format!("{choice:?}"), "population_name": choice.name(), "generations": generations, "via_json": via_json,
+                artefact_base(json!({"population": format!("{choice:?}"), "population_name": choice.name(), "configured_through": how, "cli_config": if via_cli_config { cli_config.clone() } else { Value::Null }, "generations": generations, "via_json": via_json,
                     "fitness_result": f_result, "fitness_seed": f_seed, "seed_solution": seed_text, "result_solution": result_text})),
             );
             continue;
@@ -1916,7 +1935,8 @@ fn replay(run: &Run, path: &std::path::Path) {
     let Some(case_seed) = art.get("case_seed").and_then(|v| v.as_u64()) else {
         run.inconclusive("replay: artefact has no case_seed");
         for kind in ["greedy", "elitism", "rosomaxa"] {
-        run.floor(&format!("solver context facade in front of a {kind} population"), run.observed("facade", kind), 3);
+        run.floor("seeded solves configured through the CLI config path with an evolution.initial section", run.observed("e2e_cli_config", "with evolution.initial"), 1);
+    run.floor(&format!("solver context facade in front of a {kind} population"), run.observed("facade", kind), 3);
     }
     run.floor("replayed cases", 0, 1);
         return;
